@@ -6,6 +6,10 @@ from ..match import (strip_move, is_param, rets, nodes_not_in_log, resolve_local
 
 JOINLIKE = {"operator|", "operator|=", "operator||", "widening_thresholds"}
 MEETLIKE = {"operator&", "operator&=", "operator&&"}
+# components that are not part of the described set of states but say which cached facts are still valid: a fact of one operand
+# is valid only while the variables it mentions are unchanged IN THAT OPERAND, so the marks are intersected (join of the dual
+# set) by meet-like operations too (finding F110: the component-wise `&` revived stale facts)
+VALIDITY_MARKS = {("flat_boolean_numerical_domain", "m_unchanged_vars"): "a variable reassigned in one operand counts as unchanged again and the stale implication of that operand is applied"}
 LEQ = {"operator<="}
 LATTICE = JOINLIKE | MEETLIKE | LEQ
 
@@ -91,6 +95,15 @@ def componentwise_rule(ctx, rid, only=None):
                         ctx.bad("%s::%s combines component `%s` of this with component `%s` of the argument: lattice operations of a "
                                 "product must pair each component with itself" % (fn["cpk"].split("::")[-1], fn["name"], lf, rf), fn, n,
                                 sig="cross-pair:%s:%s:%s/%s" % (fn["pk"], fn["name"], lf, rf), rid=rid)
+                        continue
+                    if (fn["cpk"].split("::")[-1], lf) in VALIDITY_MARKS and k in ("join", "meet"):
+                        # a validity mark for cached facts is intersected whatever the enclosing operation is (C03.r19 decides it)
+                        if ik == "join":
+                            ctx.ok("%s: validity marks `%s` are intersected" % (fn["name"], lf), fn, n, rid=rid)
+                        else:
+                            ctx.bad("%s::%s unites the validity marks `%s` of its operands: %s" %
+                                    (fn["cpk"].split("::")[-1], fn["name"], lf, VALIDITY_MARKS[(fn["cpk"].split("::")[-1], lf)]), fn, n,
+                                    sig="marks-united:%s:%s:%s" % (fn["pk"], fn["name"], lf), rid=rid)
                         continue
                     if ik != k:
                         ctx.bad("%s::%s combines component `%s` with %s, which is %s-like while the enclosing operation is %s-like" %
